@@ -4,7 +4,9 @@ import (
 	"bytes"
 	"fmt"
 	"io"
+	"os"
 	"strings"
+	"syscall"
 
 	"github.com/wkhere/bcl"
 )
@@ -96,6 +98,11 @@ func (f *ScriptFile) Read(p []byte) (int, error) {
 				f.ErrVal = fmt.Errorf("%s: %w", a.Err, io.EOF)
 			case a.Err == "unexpected-eof":
 				f.ErrVal = io.ErrUnexpectedEOF
+			case a.Err == "temporary":
+				// an error that calls itself temporary and keeps coming (EAGAIN on a descriptor nobody will ever make ready)
+				f.ErrVal = &os.PathError{Op: "read", Path: "input", Err: syscall.EAGAIN}
+			case a.Err == "deadline":
+				f.ErrVal = os.ErrDeadlineExceeded
 			default:
 				f.ErrVal = &scriptErr{a.Err}
 			}
